@@ -41,7 +41,8 @@ base value of the parallel axis):
   sequence (MDASequential: 7 compositions, name[budget][@own tolerance] - four with reduced budgets, three whose sub-MDAs
   have their own tolerances looser (1e-1, 1e-2) and tighter (1e-12) than the outer 1e-10), inner MDA (5 classes),
   mdachain_parallelize_tasks and sub_coupling_structures {default, given by the user: one CouplingStructure per inner
-  MDA in execution order} (MDAChain; the multi-component graphs put the inner MDAs on different levels of the sequence).
+  MDA in execution order} (MDAChain; the multi-component graphs put the inner MDAs on different levels of the sequence;
+  both tiers apply the user-given value to EVERY labelled n = 3 graph with >= 2 groups needing an MDA, ``sub_cs_cases``).
 
 Bound.  thorough: <= 2 deviations on every n = 2 graph and on one representative per isomorphism class of the n = 3
 graphs (plain solvers: the 30 strongly connected classes; chains: the classes where a chain is more than its inner
@@ -897,6 +898,27 @@ def cases(thorough: bool):
                         yield from expand(cls, n, e, lp, 0)
 
 
+def n_mda_groups(n, edges, loops):
+    """Number of groups of the execution sequence that need an inner MDA (an SCC of several nodes, or a self-coupled node)."""
+    scc = sccs(n, [tuple(e) for e in edges])
+    return len({s for i, s in enumerate(scc) if len(s) > 1 or i in loops})
+
+
+def sub_cs_cases(thorough: bool):
+    """MDAChain with user-given ``sub_coupling_structures`` (everything else default) on EVERY labelled n = 3 graph with at
+    least two groups needing an MDA - with weakly coupled groups scheduled before, between and after them, on the same and
+    on different levels of the execution sequence.  (n = 2 and, in thorough, the representatives already get the axis from
+    the deviation product.)"""
+    n = 3
+    allg = list(graphs(n))
+    rep_keys = {_gkey(e, lp) for e, lp in representatives(allg, n)}
+    base = {k: v[0] for k, v in axes_for("MDAChain", n).items()}
+    for e, lp in allg:
+        if n_mda_groups(n, e, lp) < 2 or (thorough and _gkey(e, lp) in rep_keys):
+            continue
+        yield _finish("MDAChain", n, e, lp, {**base, "sub_cs": True, "_deviations": 1})
+
+
 def nested_cases(thorough: bool):
     """MDAChain whose nodes are process disciplines (see ``top_level_nodes``).
 
@@ -944,7 +966,7 @@ def run(ctx):
     POOLED = True
     _gemseo()
     only = getattr(ctx, "only", None)
-    todo = [c for c in [*cases(ctx.thorough), *nested_cases(ctx.thorough)] if not only or c["cls"] == only]
+    todo = [c for c in [*cases(ctx.thorough), *sub_cs_cases(ctx.thorough), *nested_cases(ctx.thorough)] if not only or c["cls"] == only]
     ctx.tally.notes["nested_process_case_records"] = {
         k: sum(1 for c in todo if c.get("wrap") and f"{c['wrap']['kind']}:n{c['n']}" == k)
         for k in sorted({f"{c['wrap']['kind']}:n{c['n']}" for c in todo if c.get("wrap")})}
@@ -981,7 +1003,8 @@ def run(ctx):
         "(the update rule, not the first sweep, produced the returned point).  MDAChain with process disciplines as nodes: every ordered "
         "pair of coupled nodes replaced by a sweep MDOChain (x inner MDA class) or, for a 2-cycle, by a nested MDAJacobi / MDAGaussSeidel, "
         "x every listing order ("
-        + ("every labelled graph" if ctx.thorough else "every n = 2 graph, the n = 3 isomorphism-class representatives") + ")",
+        + ("every labelled graph" if ctx.thorough else "every n = 2 graph, the n = 3 isomorphism-class representatives")
+        + "); user-given sub_coupling_structures on every labelled n = 3 graph with >= 2 groups needing an MDA",
         "exhaustive": True,
         "bounds": {"deviations": 2 if ctx.thorough else 1, "max_disciplines": 3, "sizes": [1, 2], "tolerance": TOL, "max_mda_iter": MAX_ITER,
                    "alphabet": ALPHA["name"], "process_based_execution": "as a single deviation only (every MDA iteration forks a process pool)",
